@@ -164,6 +164,74 @@ struct Layout {
     /// put the non-stream graph nodes into an object stream (needs xref_stream)
     objstm: bool,
     flate: bool,
+    /// standard security handler V1 / R2 (RC4, 40 bit), empty user password: stream data is encrypted with
+    /// the per-object key (the bodies this module writes hold no string objects outside streams)
+    encrypt: bool,
+}
+
+// ---------------------------------------------------------------------------------------------------
+// RC4 encryption of generated sources (independent of the library's crypt.rs; MD5 from the md5 crate)
+
+fn rc4(key: &[u8], data: &[u8]) -> Vec<u8> {
+    let mut s: Vec<u8> = (0..=255u8).collect();
+    let mut j: u8 = 0;
+    for i in 0..256 {
+        j = j.wrapping_add(s[i]).wrapping_add(key[i % key.len()]);
+        s.swap(i, j as usize);
+    }
+    let (mut i, mut j) = (0u8, 0u8);
+    data.iter().map(|b| {
+        i = i.wrapping_add(1);
+        j = j.wrapping_add(s[i as usize]);
+        s.swap(i as usize, j as usize);
+        b ^ s[s[i as usize].wrapping_add(s[j as usize]) as usize]
+    }).collect()
+}
+
+const PW_PAD: [u8; 32] = [0x28, 0xBF, 0x4E, 0x5E, 0x4E, 0x75, 0x8A, 0x41, 0x64, 0x00, 0x4E, 0x56, 0xFF, 0xFA, 0x01, 0x08,
+    0x2E, 0x2E, 0x00, 0xB6, 0xD0, 0x68, 0x3E, 0x80, 0x2F, 0x0C, 0xA9, 0xFE, 0x64, 0x53, 0x69, 0x7A];
+
+struct Crypt { key: Vec<u8>, o: Vec<u8>, u: Vec<u8>, id: Vec<u8>, p: i32 }
+
+fn crypt_setup() -> Crypt {
+    let id: Vec<u8> = (0..16u8).map(|i| i.wrapping_mul(17).wrapping_add(3)).collect();
+    let p: i32 = -4;
+    // Algorithm 3 (R2), owner password "owner", user password empty
+    let mut opw = b"owner".to_vec();
+    opw.extend_from_slice(&PW_PAD[..32 - 5]);
+    let ok = md5::compute(&opw).0[..5].to_vec();
+    let o = rc4(&ok, &PW_PAD);
+    // Algorithm 2 (R2)
+    let mut m = PW_PAD.to_vec();
+    m.extend_from_slice(&o);
+    m.extend_from_slice(&p.to_le_bytes());
+    m.extend_from_slice(&id);
+    let key = md5::compute(&m).0[..5].to_vec();
+    // Algorithm 4
+    let u = rc4(&key, &PW_PAD);
+    Crypt { key, o, u, id, p }
+}
+
+fn object_key(c: &Crypt, id: u64, gen: u64) -> Vec<u8> {
+    let mut m = c.key.clone();
+    m.extend_from_slice(&(id as u32).to_le_bytes()[..3]);
+    m.extend_from_slice(&(gen as u32).to_le_bytes()[..2]);
+    md5::compute(&m).0[..10].to_vec()
+}
+
+/// encrypt the data of a body produced by `stream_body` (`… >>\nstream\n<data>\nendstream`); RC4 keeps the length
+fn encrypt_stream_body(c: &Crypt, id: u64, body: &[u8]) -> Vec<u8> {
+    let marker = b">>\nstream\n";
+    let start = match body.windows(marker.len()).position(|w| w == marker) { Some(p) => p + marker.len(), None => return body.to_vec() };
+    let end = body.len() - b"\nendstream".len();
+    let mut out = body[..start].to_vec();
+    out.extend_from_slice(&rc4(&object_key(c, id, 0), &body[start..end]));
+    out.extend_from_slice(b"\nendstream");
+    out
+}
+
+fn hex_string(b: &[u8]) -> String {
+    format!("<{}>", b.iter().map(|x| format!("{:02X}", x)).collect::<String>())
 }
 
 /// objects 1 (catalog), 2 (pages), then `pages` (id, body) and `nodes`; returns the file
@@ -174,11 +242,14 @@ fn write_doc(pages_kids: &[u64], pages_extra: &str, objects: &[(u64, Vec<u8>, bo
     w.object(1, 0, b"<< /Type /Catalog /Pages 2 0 R >>");
     let kids = pages_kids.iter().map(|k| format!("{} 0 R", k)).collect::<Vec<_>>().join(" ");
     w.object(2, 0, format!("<< /Type /Pages /Kids [{}] /Count {} {} >>", kids, pages_kids.len(), pages_extra).as_bytes());
+    let crypt = if layout.encrypt { Some(crypt_setup()) } else { None };
     let mut members = vec![];
     for (id, body, is_stream) in objects {
         max_id = max_id.max(*id);
-        if layout.objstm && layout.xref_stream && !*is_stream {
+        if layout.objstm && layout.xref_stream && !*is_stream && crypt.is_none() {
             members.push((*id, body.clone()));
+        } else if let (Some(c), true) = (&crypt, *is_stream) {
+            w.object(*id, 0, &encrypt_stream_body(c, *id, body));
         } else {
             w.object(*id, 0, body);
         }
@@ -187,11 +258,20 @@ fn write_doc(pages_kids: &[u64], pages_extra: &str, objects: &[(u64, Vec<u8>, bo
         max_id += 1;
         w.object_stream(max_id, &members, if layout.flate { StmFilter::Flate } else { StmFilter::None }, b"\n", "");
     }
+    let trailer = match &crypt {
+        Some(c) => {
+            // the library reads /Encrypt only as an indirect object
+            max_id += 1;
+            w.object(max_id, 0, format!("<< /Filter /Standard /V 1 /R 2 /O {} /U {} /P {} >>", hex_string(&c.o), hex_string(&c.u), c.p).as_bytes());
+            format!("/Root 1 0 R /Encrypt {} 0 R /ID [{} {}]", max_id, hex_string(&c.id), hex_string(&c.id))
+        }
+        None => "/Root 1 0 R".to_string(),
+    };
     if layout.xref_stream {
         max_id += 1;
-        w.finish(XrefFormat::Stream, max_id + 1, "/Root 1 0 R", &[], max_id);
+        w.finish(XrefFormat::Stream, max_id + 1, &trailer, &[], max_id);
     } else {
-        w.finish(XrefFormat::Classic, max_id + 1, "/Root 1 0 R", &[], 0);
+        w.finish(XrefFormat::Classic, max_id + 1, &trailer, &[], 0);
     }
     w.out
 }
@@ -539,7 +619,7 @@ impl CloneCase {
     }
 }
 
-const PLAIN: Layout = Layout { xref_stream: false, objstm: false, flate: false };
+const PLAIN: Layout = Layout { xref_stream: false, objstm: false, flate: false, encrypt: false };
 
 fn run_clone_cases(driver: &Driver, st: &mut Stream, cases: &[CloneCase]) {
     let reqs: Vec<String> = cases.iter().map(|c| c.request()).collect();
@@ -680,10 +760,11 @@ fn clone_random(driver: &Driver, seed: u64, n: u64) -> Stream {
         let g = random_graph(&mut rng, cyc, miss);
         let roots = random_roots(&mut rng, &g);
         let xs = rng.chance(1, 2);
-        let layout = Layout { xref_stream: xs, objstm: xs && rng.chance(1, 2), flate: rng.chance(1, 2) };
+        let layout = Layout { xref_stream: xs, objstm: xs && rng.chance(1, 2), flate: rng.chance(1, 2), encrypt: rng.chance(1, 6) };
         st.count(&format!("nodes={}", g.len()));
         for (k, _) in &roots { st.count(&format!("root-kind={}", k)); }
-        st.count(if layout.objstm { "layout=objstm" } else if layout.xref_stream { "layout=xref-stream" } else { "layout=classic" });
+        if layout.encrypt { st.count("source=encrypted(RC4)"); }
+        st.count(if layout.objstm && !layout.encrypt { "layout=objstm" } else if layout.xref_stream { "layout=xref-stream" } else { "layout=classic" });
         cases.push(CloneCase { g, roots, layout });
     }
     run_clone_cases(driver, &mut st, &cases);
@@ -997,7 +1078,7 @@ fn page_stream(driver: &Driver, seed: u64, n: u64) -> Stream {
         rng.shuffle(&mut order);
         if rng.chance(1, 4) { let d = order[0]; order.push(d); }
         let xs = rng.chance(1, 2);
-        let layout = Layout { xref_stream: xs, objstm: xs && rng.chance(1, 2), flate: rng.chance(1, 2) };
+        let layout = Layout { xref_stream: xs, objstm: xs && rng.chance(1, 2), flate: rng.chance(1, 2), encrypt: rng.chance(1, 6) };
         let doc = page_doc(&pages, &g, &[], layout);
         let page_fields: Vec<String> = order.iter().map(|i| page_model(&pages[*i as usize])).collect();
         reqs.push(format!("c20.page {} 0 {} {}", g.len() + 2, nodes_str(&g), page_fields.join(" ")));
@@ -1775,7 +1856,7 @@ fn rich_objects(rng: &mut Rng, g: &Graph) -> Rich {
     // optional-content groups (targets of /Properties)
     for i in 0..rng.below(3) {
         let o = id();
-        r.objs.push((o, format!("<< /Type /OCG /Name (layer {}) >>", i).into_bytes(), false));
+        r.objs.push((o, format!("<< /Type /OCG /Intent /View /Order {} >>", i).into_bytes(), false));
         r.ocgs.push(o);
     }
     // forms: own resources (direct or indirect), may use fonts, images and earlier forms, extra keys with graph references
@@ -1912,7 +1993,7 @@ fn witnesses() -> Vec<ImportCase> {
 fn import_generated(seed: u64, thorough: bool) -> Oracle {
     let mut or = Oracle::new("c20.import.generated");
     let mut cases = witnesses();
-    let n = if thorough { 3000 } else { 160 };
+    let n = if thorough { 6000 } else { 500 };
     for case in 0..n {
         let mut rng = Rng::derive(seed, "c20.import.generated", case);
         // one document in eight has a planted cycle or a dangling reference somewhere in its graph
@@ -1924,13 +2005,14 @@ fn import_generated(seed: u64, thorough: bool) -> Oracle {
         let mut pages = rich_pages(&mut rng, &g, &rich, all_kinds);
         if rng.chance(1, 5) { let i = rng.usize(pages.len()); pages[i].res_mode = ResMode::Inherited; }
         let xs = rng.chance(1, 2);
-        let layout = Layout { xref_stream: xs, objstm: xs && rng.chance(2, 3), flate: rng.chance(1, 2) };
+        let layout = Layout { xref_stream: xs, objstm: xs && rng.chance(2, 3), flate: rng.chance(1, 2), encrypt: rng.chance(1, 4) };
         let doc = page_doc(&pages, &g, &rich.objs, layout);
         let np = pages.len() as u32;
         let mut order: Vec<u32> = (0..np).collect();
         match rng.below(4) { 0 => {} 1 => order.reverse(), 2 => rng.shuffle(&mut order), _ => { rng.shuffle(&mut order); order.truncate(1 + rng.usize(np as usize)); } }
         if rng.chance(1, 5) { let d = order[0]; order.push(d); }
-        or.count(if layout.objstm { "layout=object-streams" } else if layout.xref_stream { "layout=xref-stream" } else { "layout=classic" });
+        if layout.encrypt { or.count("source=encrypted(RC4)"); }
+        or.count(if layout.objstm && !layout.encrypt { "layout=object-streams" } else if layout.xref_stream { "layout=xref-stream" } else { "layout=classic" });
         or.count(if has_cycle(&g) { "graph=cyclic" } else { "graph=acyclic" });
         or.count(if all_kinds { "resources=all-categories" } else { "resources=handled-categories" });
         cases.push(ImportCase {
@@ -1982,8 +2064,8 @@ pub fn run(driver: &Driver, seed: u64, thorough: bool, replay: Option<&serde_jso
     }
     let mut rep = Report::new("C20");
     rep.streams.push(clone_exhaustive(driver, if thorough { 3 } else { 2 }));
-    rep.streams.push(clone_random(driver, seed, if thorough { 20_000 } else { 1500 }));
-    rep.streams.push(page_stream(driver, seed, if thorough { 10_000 } else { 800 }));
+    rep.streams.push(clone_random(driver, seed, if thorough { 60_000 } else { 6000 }));
+    rep.streams.push(page_stream(driver, seed, if thorough { 30_000 } else { 3000 }));
     rep.oracles.push(import_generated(seed, thorough));
     rep.oracles.push(import_corpus(seed, thorough));
     rep
